@@ -39,7 +39,7 @@ class TLCResult:
         m = re.search(r"Invariant (\S+) is violated", out)
         self.violated = m.group(1) if m else None
         if self.violated is None:
-            m = re.search(r"(Temporal properties were violated|Action property \S+ is violated|Deadlock reached|Assumption .* is false|The postcondition .* false)", out)
+            m = re.search(r"(Temporal properties were violated|Action property [^\n]* is violated|Deadlock reached|Assumption .* is false|The postcondition .* false)", out)
             self.violated = m.group(1) if m else None
 
     def tagged(self, tag):
